@@ -10,6 +10,9 @@ pub fn runs(prop: &str, tier: Tier) -> u64 {
         "C06" | "C07" => (3000, 36000),
         "C09" | "C10" | "C11" | "C12" => (2500, 30000),
         "C13" => (2400, 32000),
+        "C15" | "C20" => (4000, 60000),
+        "C03" | "C04" => (500, 5000),
+        "C14" => (250, 2500),
         _ => (1500, 20000),
     };
     match tier { Tier::Quick => q, Tier::Thorough => t }
@@ -102,6 +105,68 @@ pub fn make(prop: &str, tier: Tier, seed: u64) -> Scenario {
             big(&mut hr, &mut p, tier);
             p.witness_pct = 50; p.w_overlay = 8; p.w_rollback = 6; p.w_reopen = 10;
             gen_history_cfg(prop, seed >> 3, seed ^ 0x13C0_F16, p, checks_all())
+        }
+        "C15" => {
+            let mut g = Rng::new(seed);
+            let pn = g.range(3, 7) as usize;
+            let pool = gen_pool(&mut g, pn);
+            let mut stamp = 0u32;
+            let mut val = |g: &mut Rng| { stamp += 1; VSpec { len: *g.pick(&[4u32, 9, 40, 1332, 1400, 5000]), stamp } };
+            let n_init = g.range(1, pool.len() as u64 - 1) as usize;
+            let initial: Vec<(K, VSpec)> = pool[..n_init].iter().map(|k| (K(*k), val(&mut g))).collect();
+            let nw = g.range(1, 2) as usize;
+            let nr = g.range(1, 3) as usize;
+            let mut opts = gen_opts(&mut g, None, false);
+            opts.commit_concurrency = *g.pick(&[1usize, 2, 3]);
+            opts.io_workers = g.range(1, 2) as usize;
+            let mut writers = Vec::new();
+            for _ in 0..nw {
+                let mut ops = Vec::new();
+                for _ in 0..g.range(1, 3) {
+                    let nk = g.range(1, 2) as usize;
+                    let mut ws: Vec<(K, Option<VSpec>)> = Vec::new();
+                    for _ in 0..nk { let k = K(*g.pick(&pool)); if !ws.iter().any(|w| w.0 == k) { let v = if g.chance(1, 5) { None } else { Some(val(&mut g)) }; ws.push((k, v)); } }
+                    // every changeset carries a unique write so that all committed roots differ
+                    if ws.iter().all(|w| w.1.is_none()) { ws[0].1 = Some(val(&mut g)); }
+                    let r = g.below(10);
+                    ops.push(if r < 6 { crate::conc::WOp::Commit { writes: ws, nonblocking: g.chance(1, 2), retries: g.range(0, 2) as u32 } } else if r < 8 { crate::conc::WOp::OverlayCommit { writes: ws, nonblocking: g.chance(1, 2) } } else { crate::conc::WOp::Rollback { n: g.range(1, 2) as usize } });
+                }
+                writers.push(ops);
+            }
+            let mut readers = Vec::new();
+            for _ in 0..nr {
+                let mut ops = Vec::new();
+                for _ in 0..g.range(1, 3) {
+                    let reads: Vec<K> = (0..g.range(1, 4)).map(|_| K(*g.pick(&pool))).collect();
+                    let proves: Vec<K> = (0..g.range(0, 2)).map(|_| K(*g.pick(&pool))).collect();
+                    ops.push(crate::conc::ROp { reads, proves, hold: g.range(0, 4) as u32 });
+                }
+                readers.push(ops);
+            }
+            let plan = crate::conc::ConcPlan { initial, writers, readers, initial_commits: g.range(1, 3) as u32 };
+            Scenario { property: "C15".into(), run_seed: seed, hasher: if g.chance(1, 5) { Hasher::Sha2 } else { Hasher::Blake3 }, opts, knobs: Knobs { seg_max_size: None, grow_pages: Some(16) }, probes: vec![], steps: vec![], faults: vec![],
+                sched: if g.chance(1, 3) { Sched::Pct(g.range(1, 4) as usize) } else { Sched::Random }, sched_seed: g.next(), checks: Checks::default(), extra: json!({ "kind": "concurrent", "plan_conc": plan }) }
+        }
+        "C20" => {
+            let mut g = Rng::new(seed);
+            let pool = gen_pool(&mut g, 4);
+            let initial: Vec<(K, VSpec)> = pool.iter().enumerate().map(|(i, k)| (K(*k), VSpec { len: 9 + i as u32 * 700, stamp: i as u32 + 1 })).collect();
+            let mut opts = gen_opts(&mut g, None, false);
+            opts.commit_concurrency = *g.pick(&[1usize, 2]);
+            opts.io_workers = g.range(1, 2) as usize;
+            opts.buckets = opts.buckets.min(4096);
+            let n = g.range(2, 3);
+            let openers: Vec<(u32, u32, bool, bool)> = (0..n).map(|_| (g.range(0, 60) as u32 * g.range(0, 3) as u32, g.range(0, 40) as u32, g.chance(1, 2), g.chance(1, 4))).collect();
+            let plan = crate::conc::OpenPlan { dir_state: g.pick(&["existing", "existing", "empty", "missing"]).to_string(), initial, openers };
+            Scenario { property: "C20".into(), run_seed: seed, hasher: Hasher::Blake3, opts, knobs: Knobs { seg_max_size: None, grow_pages: Some(16) }, probes: vec![], steps: vec![], faults: vec![],
+                sched: if g.chance(1, 3) { Sched::Pct(g.range(1, 4) as usize) } else { Sched::Random }, sched_seed: g.next(), checks: Checks::default(), extra: json!({ "kind": "openrace", "plan_open": plan }) }
+        }
+        "C16" | "C19" if r.chance(1, 4) => {
+            // "...and after any recovered crash": the decoder also runs on every recovered image
+            let mut s = make(if r.chance(1, 2) { "C03" } else { "C04" }, tier, seed);
+            s.property = prop.to_string();
+            s.checks.rules = false;
+            s
         }
         "C16" | "C17" | "C19" => {
             let mut p = Profile::default();
